@@ -269,6 +269,13 @@ func FamilyNest(ts TmplSpec, depth3 bool) []*Skeleton {
 	add("depSchemas", merge(J{"dependentSchemas": J{"a": pb}}, up))
 	add("ref", merge(J{"$ref": "#/$defs/d", "$defs": J{"d": pa}}, up))
 	add("dynamicRef", merge(J{"$dynamicRef": "#dyn", "$defs": J{"d": merge(J{"$dynamicAnchor": "dyn"}, pa)}}, up))
+	// in-place applicators nested below the schema that holds unevaluated*: every successful branch counts
+	add("allOf(anyOf-both)", merge(J{"allOf": A{J{"anyOf": A{pa, pb}}}}, up))
+	add("ref(anyOf-both)", merge(J{"$ref": "#/$defs/d", "$defs": J{"d": J{"anyOf": A{pa, pb}}}}, up))
+	add("anyOf(anyOf-both)", merge(J{"anyOf": A{J{"anyOf": A{pa, pb}}, J{"required": A{"zz"}}}}, up))
+	add("if(anyOf-both)", merge(J{"if": J{"anyOf": A{pa, pb}}}, up))
+	add("depSchemas(anyOf-both)", merge(J{"dependentSchemas": J{"a": J{"anyOf": A{pa, pb}}}}, up))
+	add("allOf(oneOf)-then-later-fail", merge(J{"allOf": A{J{"anyOf": A{merge(pa, J{"allOf": A{pb, J{"required": A{"zz"}}}}), pb}}}}, up))
 	add("cousins", J{"allOf": A{pa, merge(pb, up)}})
 	add("nested-uneval", merge(J{"allOf": A{merge(pa, J{"unevaluatedProperties": lInt})}}, up))
 	add("nested-uneval-true", merge(J{"anyOf": A{merge(pa, J{"unevaluatedProperties": true}), pb}}, up))
@@ -282,6 +289,9 @@ func FamilyNest(ts TmplSpec, depth3 bool) []*Skeleton {
 	p2 := J{"prefixItems": A{true, lX}}
 	add("items.anyOf-fail-then-pass", merge(J{"anyOf": A{merge(p2, J{"minItems": 3}), p1}}, ui))
 	add("items.anyOf-both", merge(J{"anyOf": A{p1, p2}}, ui))
+	add("items.allOf(anyOf-both)", merge(J{"allOf": A{J{"anyOf": A{p1, p2}}}}, ui))
+	add("items.ref(anyOf-both)", merge(J{"$ref": "#/$defs/d", "$defs": J{"d": J{"anyOf": A{p1, J{"contains": lX}}}}}, ui))
+	add("items.branch-records-then-fails", merge(J{"anyOf": A{merge(p2, J{"allOf": A{p1, false}}), p1}}, ui))
 	add("items.oneOf", merge(J{"oneOf": A{merge(p2, J{"minItems": 2}), merge(p1, J{"maxItems": 1})}}, ui))
 	add("items.allOf", merge(J{"allOf": A{p1, p2}}, ui))
 	add("items.not", merge(J{"not": J{"not": p1}}, ui))
